@@ -68,7 +68,17 @@ def run(ctx):
         ctx.fail('athlib.normalize_event_code', [s], expected, got, note=note, replay_py='result = athlib.normalize_event_code(%r)' % s)
     allstrings = []
     nvar = 0
+    def accepted(s):
+        # "accepted as an event code": the public checker, which must say what the general pattern says
+        try: pub = athlib.check_event_code(s) is not None
+        except Exception as e: pub = 'raises ' + type(e).__name__
+        pat = PE.match(s) is not None
+        if pub != pat:
+            ctx.fail('athlib.check_event_code', [s], 'accepts exactly when the general pattern does (%s)' % pat, pub, note='the public checker and the general pattern disagree',
+                     replay_py='from athlib import codes\nresult = (athlib.check_event_code(%r) is not None, codes.PAT_EVENT_CODE.match(%r) is not None)' % (s, s))
+        return pat
     for s in base:
+        accepted(s)
         st, n = norm(s)
         allstrings.append(s); ctx.seen(s)
         if st != 'ok':
@@ -93,6 +103,7 @@ def run(ctx):
             if stv != 'ok' or nv != n:
                 fail(v, 'the same code as its variant %r: %r' % (s, n), repr(nv if stv == 'ok' else stv), 'variant spellings normalise differently')
     for s in misses:
+        accepted(s)
         if PE.match(s.strip()): continue
         allstrings.append(s)
         st, n = norm(s)
